@@ -111,7 +111,7 @@ func (t *traceApplier) Apply(op *operation.AnchoredOperation, rm *protocol.Resol
 }
 
 // tracedResolve resolves with a traced version; returns result, the trace applier and a budget-exceeded flag.
-func tracedResolve(p protocol.Protocol, suffix string, ops []*ref.Op, order []int) (rm *protocol.ResolutionModel, err error, ta *traceApplier, exceeded bool) {
+func tracedResolve(p protocol.Protocol, suffix string, ops []*ref.Op, order []int, split ...int) (rm *protocol.ResolutionModel, err error, ta *traceApplier, exceeded bool) {
 	v := hx.NewVersion(p, hx.VersionOpts{ParserOpts: hx.StrictResolution()})
 	ta = newTraceApplier(v.Applier, len(ops))
 	v.Applier = ta
@@ -125,6 +125,10 @@ func tracedResolve(p protocol.Protocol, suffix string, ops []*ref.Op, order []in
 			panic(r)
 		}
 	}()
-	rm, err = SUTResolve(pc, suffix, ops, order)
+	if len(split) == len(ops) && len(ops) > 0 {
+		rm, err = SUTResolveSplit(pc, suffix, ops, nil, split)
+	} else {
+		rm, err = SUTResolve(pc, suffix, ops, order)
+	}
 	return rm, err, ta, false
 }
